@@ -799,7 +799,7 @@ class Audit:
                 inl = self._inlined(s.fn)
                 if inl is not None:
                     self.descs_inl[s.key] = self._describe(inl[2], Ctx(inl[2], self.F), s)
-            missing = self._requires(s.fn, j.get("requires", []))
+            missing = self._requires(s.fn, j.get("requires", []), s)
             if missing:
                 s.verdict = "open"
                 s.reason = "justification no longer applies: the function lacks the guard it relies on (%s); was: %s" % (missing, j["reason"][:120])
@@ -825,7 +825,7 @@ class Audit:
             kp = k2.split(" | ")
             if j2.get("desc") and len(kp) == 3 and kp[0] == fn and _norm_what(kp[1]) == wn and \
                     _norm_desc(desc) in (_norm_desc(j2["desc"]), _norm_desc(j2.get("desc_inl") or j2["desc"])):
-                if self._requires(fn, j2.get("requires", [])):
+                if self._requires(fn, j2.get("requires", []), s):
                     continue
                 self.used_justifications.add(k2)
                 s.verdict, s.reason = "justified", "[same site as %s] %s" % (k2.rsplit(" | ", 1)[1], j2["reason"])
@@ -924,10 +924,35 @@ class Audit:
         s.reason = "in the context of each of its %d call sites (helper inlined into the caller): %s" % (len(sites), "; ".join(sorted(set(reasons)))[:200])
         return True
 
-    def _requires(self, fn, reqs):
-        """each required fragment must occur in the canonical rendering of the function's HIR body"""
+    def _requires(self, fn, reqs, site=None):
+        """each required fragment must occur in the canonical rendering of the function's HIR body; a requirement
+        `cond:<regex>=True|False` is a condition that must dominate the site with that value (read from the MIR: it does not
+        matter how the guard is spelled, `!(a && b)`, `!a || !b`, nested ifs)"""
         if not reqs:
             return None
+        conds = [r for r in reqs if r.startswith("cond:")]
+        if conds:
+            if site is None:
+                return conds[0]
+            B = self.body(site.fn) if site.fn == fn else None
+            got = {}
+            if B is not None:
+                for sy, vals, dty in M.implied_conditions(B, site.bb):
+                    if dty != "bool":
+                        continue
+                    v_ = True if (vals == (1,) or vals == ("not", (0,))) else (False if (vals == (0,) or vals == ("not", (1,))) else None)
+                    t_ = sy
+                    while t_[0] == "un" and t_[1] == "Not" and v_ is not None:
+                        t_, v_ = t_[2], not v_
+                    if v_ is not None:
+                        got[M.show(t_, -20)] = v_
+            for r in conds:
+                rx, want = r[5:].rsplit("=", 1)
+                if not any(re.search(rx, k) and v == (want == "True") for k, v in got.items()):
+                    return r
+            reqs = [r for r in reqs if not r.startswith("cond:")]
+            if not reqs:
+                return None
         f = self.F.fns.get(fn)
         body = H.body_of(f) if f else None
         if body is None:
